@@ -127,10 +127,21 @@ def c19_b(ctx: Ctx):
         if api in ("finditer", "findall"):
             # last match must be taken
             last = [n for n in body_nodes(f) if isinstance(n, ast.Subscript) and ctx.fold(n.slice, f) == -1]
+            # a loop that runs the iterator to exhaustion leaves its target bound to the last match
+            pm_ = ctx.parents(f)
+            lp = pm_.get(id(c))
+            exhaust = isinstance(lp, ast.For) and lp.iter is c and not lp.orelse and not any(isinstance(x, (ast.Break, ast.Return)) for st in lp.body for x in ast.walk(st))
+            first = [n for n in body_nodes(f) if (isinstance(n, ast.Subscript) and ctx.fold(n.slice, f) == 0 and any(x is c for x in ast.walk(common.inline_at(ctx, f, n.value, n))))
+                     or (isinstance(n, ast.Call) and isinstance(n.func, ast.Name) and n.func.id == "next" and n.args and any(x is c for x in ast.walk(common.inline_at(ctx, f, n.args[0], n))))]
+            brk = isinstance(lp, ast.For) and lp.iter is c and any(isinstance(x, (ast.Break, ast.Return)) for st in lp.body for x in ast.walk(st))
             if last:
                 out.append(ctx.ok(R, f, c, "all id-like components are found and the last one is used"))
-            else:
+            elif exhaust:
+                out.append(ctx.ok(R, f, c, "the matches are iterated to exhaustion: the loop variable ends up as the last id-like component"))
+            elif first or brk:
                 out.append(ctx.viol(R, f, c, "get_job does not take the last id-like component: for a project nested in a job directory the outer job is returned"))
+            else:
+                out.append(ctx.inc(R, f, c, "which of the id-like components is used could not be determined"))
         elif api in ("search", "match"):
             out.append(ctx.viol(R, f, c, f"get_job uses {api}(), i.e. the first id-like component of the path: for '<ws>/<id1>/workspace/<id2>' the outer job and project are "
                                 "returned instead of the innermost"))
